@@ -103,6 +103,10 @@ def events_for(pp, rnd, A, tag):
                 ok = o == "ret" and o2 == "ret"
                 add("slice2", i=i, j=j, a=aa, b=bb, out=o if o != "ret" else o2,
                     res=project.ann(r) if ok else anngen.empty(""), res2=project.ann(r2) if ok else anngen.empty(""))
+    # a slice of the REVERSED peptide (its interval list is in descending order): mirror image of a slice of A
+    for (i, j) in rnd.sample(pairs, min(len(pairs), 3)):
+        o, r = call(lambda: anngen.build(pp, A).reverse().slice(n - j, n - i))
+        add("revslice", i=n - j, j=n - i, out=o, res=project.ann(r) if o == "ret" else anngen.empty(""))
     o, ps = call(lambda: list(anngen.build(pp, A).split()))
     add("split", out=o, pieces=[project.ann(p) for p in ps] if o == "ret" else [])
     return evs
